@@ -7,10 +7,14 @@ SRC = "harness/c19_constpool.cpp"
 
 def run(res, ctx):
     tier = ctx["tier"]
+    args = []
+    for k in ("depth", "depth2"):
+        if k in ctx["opts"]:
+            args += ["--" + k, ctx["opts"][k]]
     if tier == "quick":
-        runner.run_harness(res, SRC, "asan", tier, deadline=240, timeout=600, shards=8)
+        runner.run_harness(res, SRC, "asan", tier, args=args, deadline=240, timeout=600, shards=8)
     else:
-        runner.run_harness(res, SRC, "asan", tier, deadline=1500, timeout=2400, shards=16)
+        runner.run_harness(res, SRC, "asan", tier, args=args, deadline=1500, timeout=2400, shards=16)
 
 
 def replay(res, path, ctx):
